@@ -812,6 +812,18 @@ func (fr *Frame) typeAssert(st *State, in *ssa.TypeAssert) Val {
 		// canonical representation of a value of dynamic type T
 		ex.assume(st, Implies(ok, Eq(App(name, SIfc, v), x.T)))
 	}
+	if !ex.boxAxioms[name] {
+		// an interface value of dynamic type T is the box of the T value it holds (quantified form, for specifications
+		// that compare interface values through the values they hold)
+		if ex.boxAxioms == nil {
+			ex.boxAxioms = map[string]bool{}
+		}
+		ex.boxAxioms[name] = true
+		xi := V("i!box", SIfc)
+		ub := App("un"+name, s, xi)
+		ex.axioms = append(ex.axioms, &Term{Op: "forall", Sort: SBool, Bound: []Bound{{"i!box", SIfc}}, Pat: []*Term{ub},
+			Args: []*Term{Implies(Eq(App("typeof", SInt, xi), IntLit(int64(id))), Eq(App(name, SIfc, ub), xi))}})
+	}
 	if !in.CommaOk {
 		fr.safetyNamed(st, "assert", ok, in.Pos(), "typeassert", in)
 		fr.loadFacts(st, v, at)
